@@ -81,3 +81,43 @@ package components
 //@   atcall (*FileGlobber).globFiles globs-only-after-the-dependency-stream-ended[C19]: "in_dep" in p.inPorts ==> chanRecvN(p.inPorts["in_dep"].Chan) == chanTotal(p.inPorts["in_dep"].Chan)
 //@   atcall (*FileGlobber).globFiles nothing-emitted-before[C19]: outN == old(outN) && p == old(p) && p.outPorts == old(p.outPorts) && p.globPatterns == old(p.globPatterns)
 //@   loop 0 invariant stable: p == old(p) && outN == old(outN) && outAt == old(outAt) && p.outPorts == old(p.outPorts) && p.inPorts == old(p.inPorts) && p.globPatterns == old(p.globPatterns) && p.outPorts["out"] == old(p.outPorts["out"]) && wfSrcOut(p.BaseProcess, "out") && "in_dep" in p.inPorts && p.inPorts["in_dep"] == old(p.inPorts["in_dep"]) && p.inPorts["in_dep"].Chan == old(p.inPorts["in_dep"].Chan)
+
+// Line readers: FileToParamsReader and CommandToParams send the lines a bufio.Scanner yields, once each, in order.
+// The scanner is abstracted by its (prophecy) sequence of lines: scanTotal(s) lines scanLine(s, 0..), and a ghost position.
+//@ ghost var scanPos arr[ref]int
+//@ ghost func scanLine(s ref, i int) string
+//@ ghost func scanTotal(s ref) int
+//@ ghost func scannerSource(s ref) ref
+//@ ghost func openedName(f ref) string
+//@ ghost func readerOf(r ref) string
+//@ extern bufio.NewScanner(r) (res)
+//@   modifies scanPos
+//@   ensures fresh: res != nil && scanPos == update(old(scanPos), res, 0) && scannerSource(res) == r && scanTotal(res) >= 0
+//@ extern (*bufio.Scanner).Scan(s) (res)
+//@   modifies scanPos
+//@   ensures def: res == (old(scanPos)[s] < scanTotal(s)) && scanPos == update(old(scanPos), s, old(scanPos)[s] + ite(res, 1, 0))
+//@ extern (*bufio.Scanner).Text(s) (res)
+//@   ensures def: res == scanLine(s, scanPos[s] - 1)
+//@ extern (*bufio.Scanner).Err(s) (res)
+//@ extern os.Open(name) (file, err)
+//@   ensures named: err == nil ==> file != nil && openedName(file) == name
+//@ extern (*os.File).Close(f) (err)
+//@ extern strings.NewReader(s) (res)
+//@   ensures def: res != nil && readerOf(res) == s
+//@ func errWrapf(err, msg, v) (res)
+//@   props C19
+//@   trusted builds an error value; only used on the failing path
+
+//@ func (*FileToParamsReader).OutLine(p) (res)
+//@   props C19
+//@   ensures def: "line" in p.outParamPorts && res == p.outParamPorts["line"]
+
+//@ func (*FileToParamsReader).Run(p)
+//@   props C19
+//@   requires wf: wfSrcParamOut(p.BaseProcess, "line")
+//@   modifies *
+//@   atreturn reads-the-configured-file[C19]: err == nil && openedName(file) == old(p.filePath) && scannerSource(scan) == file
+//@   atreturn emits-every-line-read-in-order[C19]: poutN[old(p.outParamPorts["line"])] == old(poutN[p.outParamPorts["line"]]) + scanTotal(scan) && (forall j int :: 0 <= j && j < scanTotal(scan) ==> poutAt[old(p.outParamPorts["line"])][old(poutN[p.outParamPorts["line"]]) + j] == scanLine(scan, j))
+//@   loop 0 invariant stable: p == old(p) && scan != nil && p.outParamPorts == old(p.outParamPorts) && p.outParamPorts["line"] == old(p.outParamPorts["line"]) && wfSrcParamOut(p.BaseProcess, "line") && err == nil && openedName(file) == old(p.filePath) && scannerSource(scan) == file
+//@   loop 0 invariant pos: 0 <= scanPos[scan] && scanPos[scan] <= scanTotal(scan)
+//@   loop 0 invariant so-far: poutN[p.outParamPorts["line"]] == old(poutN[p.outParamPorts["line"]]) + scanPos[scan] && (forall j int :: 0 <= j && j < scanPos[scan] ==> poutAt[p.outParamPorts["line"]][old(poutN[p.outParamPorts["line"]]) + j] == scanLine(scan, j))
